@@ -11,7 +11,6 @@ import (
 	"encoding/json"
 	"fmt"
 	"os"
-	"os/exec"
 	"path/filepath"
 	"runtime/debug"
 	"sort"
@@ -307,18 +306,155 @@ var verifC20RsyncOnce sync.Once
 // worker at that moment fails with "Cannot acquire directory lock".
 var verifC20ExecMu sync.RWMutex
 
-// a stand-in `rsync` first on PATH: same contract as `rsync -avz --delete SRC DEST` for a directory SRC (DEST/<base of
-// SRC> becomes a copy of SRC), but cheap on Badger's sparse files; exits 24 once when <parent of DEST>/rsync.fail exists
+// A stand-in `rsync` first on PATH: a two-line shell script that re-executes this driver binary with
+// `--rsync-standin <args...>`; VerifC20RsyncStandIn below does the work.
 func verifC20RsyncStandIn(scratch string) {
 	verifC20RsyncOnce.Do(func() {
 		bin := filepath.Join(scratch, "c20bin")
 		_ = os.MkdirAll(bin, 0o755)
-		script := "#!/bin/sh\nsrc=\"$3\"; dest=\"$4\"\nctl=\"$(dirname \"$dest\")/rsync.fail\"\n" +
-			"if [ -e \"$ctl\" ]; then rm -f \"$ctl\"; echo 'rsync warning: some files vanished before they could be transferred (code 24)' >&2; exit 24; fi\n" +
-			"rm -rf \"$dest/$(basename \"$src\")\" && cp -a --sparse=always \"$src\" \"$dest/\"\n"
+		self, _ := os.Executable()
+		script := "#!/bin/sh\nexec \"" + self + "\" --rsync-standin \"$@\"\n"
 		_ = os.WriteFile(filepath.Join(bin, "rsync"), []byte(script), 0o755)
 		_ = os.Setenv("PATH", bin+string(os.PathListSeparator)+os.Getenv("PATH"))
 	})
+}
+
+// VerifC20RsyncStandIn behaves like `rsync [flags] SRC DEST` for a directory SRC without trailing slash:
+// DEST/<base of SRC> becomes a copy of SRC.  Flags are parsed, never positional: every word starting with "-" is a
+// flag, the last two other words are SRC and DEST; unknown flags are accepted.  Honoured: --delete (files and
+// directories below DEST/<base> that SRC does not have are removed) and --append (rsync's documented rule: a file
+// whose size on the receiver is the same or larger is skipped; a shorter one gets the sender's tail appended).
+// Without --append every file is transferred (real rsync's size+mtime quick check is not emulated).  Zero blocks
+// become holes (Badger preallocates its memtable log).  If <parent of DEST>/rsync.fail exists it is removed and the
+// exit status is 24, as for "some files vanished before they could be transferred".  Returns the exit status.
+func VerifC20RsyncStandIn(args []string) int {
+	var words []string
+	doAppend, doDelete := false, false
+	for _, a := range args {
+		if strings.HasPrefix(a, "-") {
+			switch a {
+			case "--append", "--append-verify":
+				doAppend = true
+			case "--delete", "--del", "--delete-before", "--delete-during", "--delete-after":
+				doDelete = true
+			}
+			continue
+		}
+		words = append(words, a)
+	}
+	if len(words) < 2 {
+		fmt.Fprintln(os.Stderr, "rsync stand-in: need SRC and DEST")
+		return 1
+	}
+	src, dest := words[len(words)-2], words[len(words)-1]
+	ctl := filepath.Join(filepath.Dir(filepath.Clean(dest)), "rsync.fail")
+	if _, err := os.Stat(ctl); err == nil {
+		_ = os.Remove(ctl)
+		fmt.Fprintln(os.Stderr, "rsync warning: some files vanished before they could be transferred (code 24)")
+		return 24
+	}
+	target := filepath.Join(dest, filepath.Base(filepath.Clean(src)))
+	if err := os.MkdirAll(target, 0o755); err != nil {
+		return 11
+	}
+	have := map[string]bool{}
+	rc := 0
+	_ = filepath.Walk(src, func(p string, info os.FileInfo, err error) error {
+		if err != nil {
+			rc = 23
+			return nil
+		}
+		rel, _ := filepath.Rel(src, p)
+		have[rel] = true
+		to := filepath.Join(target, rel)
+		if info.IsDir() {
+			_ = os.MkdirAll(to, 0o755)
+			return nil
+		}
+		if !info.Mode().IsRegular() {
+			return nil
+		}
+		from := int64(0)
+		if doAppend {
+			if st, err := os.Stat(to); err == nil {
+				if st.Size() >= info.Size() {
+					return nil // same size or longer on the receiver: skipped
+				}
+				from = st.Size()
+			}
+		}
+		if err := verifC20CopyFile(p, to, from, info.Size()); err != nil {
+			rc = 23
+		}
+		return nil
+	})
+	if doDelete {
+		var extra []string
+		_ = filepath.Walk(target, func(p string, info os.FileInfo, err error) error {
+			if err != nil {
+				return nil
+			}
+			rel, _ := filepath.Rel(target, p)
+			if !have[rel] {
+				extra = append(extra, p)
+			}
+			return nil
+		})
+		for i := len(extra) - 1; i >= 0; i-- {
+			_ = os.RemoveAll(extra[i])
+		}
+	}
+	return rc
+}
+
+// copy src[from:size] to dst at the same offsets; dst ends up with exactly `size` bytes; zero blocks are not written
+func verifC20CopyFile(src, dst string, from, size int64) error {
+	in, err := os.Open(src)
+	if err != nil {
+		return err
+	}
+	defer in.Close()
+	flags := os.O_WRONLY | os.O_CREATE
+	if from == 0 {
+		flags |= os.O_TRUNC
+	}
+	out, err := os.OpenFile(dst, flags, 0o644)
+	if err != nil {
+		return err
+	}
+	defer out.Close()
+	buf := make([]byte, 1<<20)
+	zero := make([]byte, 1<<20)
+	for off := from; off < size; {
+		n, err := in.ReadAt(buf[:min(int64(len(buf)), size-off)], off)
+		if n > 0 {
+			if !bytesEqual(buf[:n], zero[:n]) {
+				if _, werr := out.WriteAt(buf[:n], off); werr != nil {
+					return werr
+				}
+			}
+			off += int64(n)
+		}
+		if err != nil {
+			if err == io.EOF {
+				break
+			}
+			return err
+		}
+	}
+	return out.Truncate(size)
+}
+
+func bytesEqual(a, b []byte) bool {
+	if len(a) != len(b) {
+		return false
+	}
+	for i := range a {
+		if a[i] != b[i] {
+			return false
+		}
+	}
+	return true
 }
 
 func verifC20FileSize(p string) int64 {
@@ -501,6 +637,16 @@ func VerifC20Run(c VerifC20Case, dir string) (obs VerifC20Obs) {
 		case "x":
 			_ = os.Remove(filepath.Join(bdir, StorageIDFileName))
 			record(0, before)
+		case "k": // delete one dataset (if it exists)
+			name := "ds" + strconv.Itoa(op.Ds)
+			if h.dsm.IsDataset(name) {
+				if err := h.dsm.DeleteDataset(name); err != nil {
+					obs.Outcome = "setup-error"
+					obs.Detail = "delete dataset: " + err.Error()
+					return
+				}
+			}
+			record(0, before)
 		case "d":
 			if err := h.store.Delete(); err != nil {
 				obs.Outcome = "setup-error"
@@ -561,8 +707,9 @@ func VerifC20Run(c VerifC20Case, dir string) (obs VerifC20Obs) {
 		if _, err := os.Stat(cand); err != nil {
 			return
 		}
-		if out, err := exec.Command("cp", "-a", "--sparse=always", cand, rdir).CombinedOutput(); err != nil {
-			obs.Detail = "cp: " + string(out)
+		// the restore is a plain copy of <location>/<store dir> (done in process: no external command)
+		if rc := VerifC20RsyncStandIn([]string{"-a", cand, filepath.Dir(rdir)}); rc != 0 || os.Rename(filepath.Join(filepath.Dir(rdir), filepath.Base(cand)), rdir) != nil {
+			obs.Detail = fmt.Sprintf("restore copy failed (%d)", rc)
 			return
 		}
 	} else {
